@@ -25,6 +25,7 @@ fn exec_case(case: &Value, dom_max: usize) -> Value {
         let (docs, steps) = hist::run_history(case, h, dom_max);
         out.insert("doms".into(), docs);
         out.insert("hist".into(), steps);
+        out.insert("cfg".into(), case.get("cfg").cloned().unwrap_or(json!({"deco": "plain", "ops": []})));
         out.insert("runs".into(), json!([]));
         return Value::Object(out);
     }
